@@ -6,7 +6,7 @@ CONSTANTS
   Times = {1, 2}
   BatchSizes = {1, 2}
   DupInBatch = FALSE
-  MaxPoints = 3
+  MaxPoints = 2
   MaxSnaps = 1
   MaxCompacts = 1
   MaxDeletes = 1
